@@ -245,3 +245,53 @@ def const_eval(fb, sym, t, env=None):
         return None
     except RecursionError:
         return None
+
+
+# ---------------------------------------------------------------------------------------------------------------------
+# Exact decision for bit-vector predicates built from bitwise operators only.
+def bit_of(fb, sym, term, i, env, leaf_of):
+    """Value (bool) of bit i of `term` when every leaf's bit i is env[leaf name]; raises Undecided outside the
+    bitwise fragment (And/Or/Xor/Not over leaves and constants)."""
+    t = term
+    while t[0] in ("ref", "deref") or (t[0] == "cast" and t[4] in ("IntToInt",) and True):
+        if t[0] == "cast":
+            # widening/narrowing integer casts keep bit i for i below both widths; callers use 64-bit terms only
+            t = t[1]
+        else:
+            t = t[1]
+    name = leaf_of(t)
+    if name is not None:
+        return env[name]
+    v = const_eval(fb, sym, t)
+    if isinstance(v, int):
+        return bool((v >> i) & 1)
+    if t[0] == "bin" and t[1] in ("BitAnd", "BitOr", "BitXor"):
+        a = bit_of(fb, sym, t[2], i, env, leaf_of)
+        b = bit_of(fb, sym, t[3], i, env, leaf_of)
+        return (a and b) if t[1] == "BitAnd" else (a or b) if t[1] == "BitOr" else (a != b)
+    if t[0] == "un" and t[1] == "Not":
+        return not bit_of(fb, sym, t[2], i, env, leaf_of)
+    if t[0] == "call" and t[1] in ("bits", "into", "from") and len(t[2]) == 1:
+        return bit_of(fb, sym, t[2][0], i, env, leaf_of)
+    raise Undecided("not bitwise: %s" % (t[0],))
+
+
+def bitwise_pred_equals(fb, sym, atom, leaf_of, leaves, want, width=64):
+    """atom is ('cmp', Eq|Ne, L, R) over bitwise terms.  True iff, as a predicate on the leaves (bit vectors), it is
+    equivalent to `for all bits i: want(env_i)`; None if outside the fragment."""
+    import itertools
+    if atom[0] != "cmp" or atom[1] not in ("Eq", "Ne"):
+        return None
+    L, R = atom[2], atom[3]
+    try:
+        # the atom holds  <=>  for all i: L_i == R_i   (Eq)   |   exists i: L_i != R_i  (Ne)
+        # `want` describes the all-bits form; a Ne atom is the negation of an all-bits form, so compare with Eq only
+        for i in range(width):
+            for vals in itertools.product((False, True), repeat=len(leaves)):
+                env = dict(zip(leaves, vals))
+                same = bit_of(fb, sym, L, i, env, leaf_of) == bit_of(fb, sym, R, i, env, leaf_of)
+                if same != bool(want(env)):
+                    return False
+    except Undecided:
+        return None
+    return atom[1] == "Eq"
